@@ -22,7 +22,9 @@ SHARED_ADDR = False     # nodes 2k-1 and 2k then live on one host (same fqdn and
 
 def node(i):
     a = (i + 1) // 2 if SHARED_ADDR else i
-    return {"fqdn": "node%d.abcxyz.use1.cache.amazonaws.com" % a, "ip": "10.0.1.%d" % a, "port": 11211 + (i % 2)}
+    # (every third node of the universe has an IPv6 address: dual-stack clusters advertise those)
+    ip = "2600:1f18:4a:7d00::%x" % a if a % 3 == 0 else "10.0.1.%d" % a
+    return {"fqdn": "node%d.abcxyz.use1.cache.amazonaws.com" % a, "ip": ip, "port": 11211 + (i % 2)}
 
 
 def hostport(name):
